@@ -20,15 +20,21 @@ import time
 from harness import tlc
 from harness.common import MachineryFailure, run_workers
 
-CTXNAME = {"c1": "file.fa", "c2": "apps.ab", "c3": "jupyter_0"}
+CTXNAME = {"c1": "file.fa", "c2": "apps.ab", "c3": "jupyter_0", "c4": "modules.mx"}
 FILE = {"c1": "fa.py", "c2": "apps/ab/__init__.py"}
-SVC = ("s1", "s2")
+MODFILE = "modules/mx.py"          # c4: a module, loaded only when some context executes "import mx"
+ALLCTX = ("c1", "c2", "c3", "c4")
+SVC = ("s1", "s2", "S3")           # "S3": a name with an upper-case letter (HA folds it, the script does not)
 EV = ("e1", "e2")
 ENT = ("a", "b", "c")
-ALL_ACTS = ["define", "del", "rebind", "push", "pop", "clear", "reload", "close", "unload", "boot", "fire", "set",
-            "call", "out"]
+ALL_ACTS = ["define", "del", "rebind", "push", "pop", "clear", "reload", "close", "unload", "boot", "import", "fail",
+            "fire", "set", "call", "out"]      # "fail" is not an action: it allows contents whose top level raises
 ALL_FLAGS = ["legacy-stop-before-first-run-leaks", "service-handler-not-repointed", "notify-del-returns-early", "dm-delayed-start-ignores-drop",
-             "dm-start-order-arbitrary", "dm-service-owner-is-evaluator-name", "dm-service-multi-arg-rejected"]
+             "dm-start-order-arbitrary", "dm-service-owner-is-evaluator-name", "dm-service-multi-arg-rejected",
+             "session-import-module-not-started", "service-bookkeeping-keyed-by-spelling"]
+# deviations repaired in the code under test: their generator masks are lifted (a rejection they explain is a
+# VIOLATION anyway: known_findings.jsonl lists them as fixed)
+LIFTED_MASKS = {"dm-service-multi-arg-rejected"}
 DM_ONLY = {f for f in ALL_FLAGS if f.startswith("dm-")}
 WHAT = {
     "service-handler-not-repointed": "two live functions declare one service: after the newer one is deleted the count drops "
@@ -50,9 +56,22 @@ WHAT = {
                                           "between): TrigInfo.stop finds nothing to unsubscribe, then the task subscribes and "
                                           "is cancelled by the reaper - its State.notify queues and its event queue / bus "
                                           "listener stay (no run: the task is gone)",
+    "session-import-module-not-started": "a module imported by a Jupyter cell is loaded while the session's auto-start is "
+                                         "switched off for the cell: its decorated functions stay stopped (dm: no service, "
+                                         "no trigger; legacy: services only) until an unrelated pyscript.reload starts them",
+    "service-bookkeeping-keyed-by-spelling": "reference counts and owners of services are kept per spelling of the name while "
+                                             "HA folds service names: two live declarations that spell one name differently "
+                                             "(pyscript.s1 / pyscript.S1) do not share a count - deleting or redefining one "
+                                             "unregisters the service the other still declares - and a second context takes over "
+                                             "a name another context owns",
     "unexplained": "recording is not a behaviour of the lifecycle model under any combination of the named deviations",
 }
-NODECL = {"st": [], "ev": [], "tt": [], "svc": [], "resp": "none", "sf": "stack"}
+NODECL = {"st": [], "ev": [], "tt": [], "svc": [], "resp": "none", "sf": "stack", "alt": False}
+
+
+def spell(s, alt):
+    """The service name as the script writes it; alt: the other spelling of the same name (first letter's case swapped)."""
+    return s[0].swapcase() + s[1:] if alt else s
 
 
 # ------------------------------------------------------------------------------------------------
@@ -70,7 +89,7 @@ def parse_kv(s):
 
 def decorators(d):
     out = []
-    svc = sorted(d["svc"])
+    svc = [spell(x, d.get("alt")) for x in sorted(d["svc"])]
     if svc:
         if d["sf"] == "args":
             names = [", ".join('"pyscript.%s"' % s for s in svc)]
@@ -97,17 +116,51 @@ def func_src(name, gen, d, indent=""):
 
 
 def prelude(c):
-    return ("L = []\nD = {}\n\n"
-            '@event_trigger("vfspawn_%s")\n'
-            "def vf_spawn(where=None, **kw):\n"
-            '    if where == "L":\n'
-            "        L.append(vf_mk())\n"
-            "    else:\n"
-            '        D["k"] = vf_mk()\n\n') % c
+    src = ("L = []\nD = {}\n\n"
+           '@event_trigger("vfspawn_%s")\n'
+           "def vf_spawn(where=None, **kw):\n"
+           '    if where == "L":\n'
+           "        L.append(vf_mk())\n"
+           "    else:\n"
+           '        D["k"] = vf_mk()\n\n') % c
+    if c != "c4":           # "import mx" executed inside a running function
+        src += ('@event_trigger("vfimp_%s")\n'
+                "def vf_imp(**kw):\n"
+                "    import mx\n\n") % c
+    return src
 
 
-def file_src(c, defs, g0):
-    return prelude(c) + "\n".join(func_src(df["n"], g0 + i, df["d"]) for i, df in enumerate(defs))
+FAIL_SRC = "\nraise RuntimeError('vf: the top level of this file fails here')\n"
+HELPERS = ("vf_spawn", "vf_imp")
+
+
+def file_src(c, defs, g0, fail=False, im=False):
+    """im: the file begins with "import mx" (before its definitions); fail: its top level raises after them."""
+    return (prelude(c) + ("import mx\n\n" if im else "")
+            + "\n".join(func_src(df["n"], g0 + i, df["d"]) for i, df in enumerate(defs)) + (FAIL_SRC if fail else ""))
+
+
+def norm_decl(d):
+    return d if "alt" in d else dict(d, alt=False)
+
+
+def norm_act(a):
+    """Fill in the optional fields of an action (older replay files / generators do not write them)."""
+    a = dict(a)
+    if "d" in a:
+        a["d"] = norm_decl(a["d"])
+    for k in ("defs", "mdefs", "d1", "d2"):
+        if k in a:
+            a[k] = [dict(df, d=norm_decl(df["d"])) for df in a[k]]
+    if a["a"] == "reload":
+        for k, v in (("fail", False), ("im", False), ("mdefs", []), ("fresh", False)):
+            a.setdefault(k, v)
+    elif a["a"] == "boot":
+        a.setdefault("f1", False)
+        a.setdefault("f2", False)
+    elif a["a"] == "import":
+        a.setdefault("fail", False)
+    return a
 
 
 # ------------------------------------------------------------------------------------------------
@@ -235,23 +288,33 @@ def run_case(case):
         def tables():
             lis = hass.bus.async_listeners()
             act = {}
-            for c in ("c1", "c2", "c3"):
+            for c in ALLCTX:
                 g = GlobalContextMgr.get(CTXNAME[c])
                 n = 0
                 if g is not None:
                     if legacy:
-                        n = sum(1 for f in g.triggers if f.name != "vf_spawn" and (f.trigger or f.trigger_service))
+                        n = sum(1 for f in g.triggers if f.name not in HELPERS and (f.trigger or f.trigger_service))
                     else:
-                        n = sum(1 for dm in g.dms if dm.func_name != "vf_spawn" and str(dm.status) == "running")
+                        n = sum(1 for dm in g.dms if dm.func_name not in HELPERS and str(dm.status) == "running")
                 act[c] = n
             stray = sum(len(q) for k, q in State.notify.items() if k not in {"pyscript." + x for x in ENT})
-            stray += sum(len(q) for k, q in Event.notify.items() if legacy and k not in EV and not k.startswith("vfspawn_"))
+            stray += sum(len(q) for k, q in Event.notify.items()
+                         if legacy and k not in EV and not k.startswith(("vfspawn_", "vfimp_")))
             stray += len(Event.notify) if not legacy else 0
             stray += len(Mqtt.notify) + len(Webhook.notify)
+
+            # ONE service, however its name is spelled in the bookkeeping (HA folds service names): the count is
+            # the sum over the spellings, the owner must be the same for all of them
+            def spelled(table, s):
+                return [v for k, v in table.items() if k.lower() == ("pyscript." + s).lower()]
+
+            def owner(s):
+                o = sorted({ctx_of(v) for v in spelled(Function.service2global_ctx, s)})
+                return o[0] if len(o) == 1 else ("-" if not o else "several:" + "+".join(o))
             return {
-                "cnt": {s: Function.service_cnt.get("pyscript." + s, 0) for s in SVC},
+                "cnt": {s: sum(spelled(Function.service_cnt, s)) for s in SVC},
                 "has": {s: hass.services.has_service("pyscript", s) for s in SVC},
-                "own": {s: ctx_of(Function.service2global_ctx.get("pyscript." + s)) for s in SVC},
+                "own": {s: owner(s) for s in SVC},
                 "sr": {s: (str(getattr(hass.services.supports_response("pyscript", s), "value",
                                        hass.services.supports_response("pyscript", s)))
                            if hass.services.has_service("pyscript", s) else "-") for s in SVC},
@@ -260,7 +323,7 @@ def run_case(case):
                 "evl": {e: lis.get(e, 0) for e in EV},
                 "tm": ptimers(loop) - base["tm"],
                 "act": act,
-                "ctx": {c: GlobalContextMgr.get(CTXNAME[c]) is not None for c in ("c1", "c2", "c3")},
+                "ctx": {c: GlobalContextMgr.get(CTXNAME[c]) is not None for c in ALLCTX},
                 "oth": stray,
             }
 
@@ -319,14 +382,26 @@ def run_case(case):
                 await ex(a["c"], "%s.clear()\n" % a["where"])
             elif k == "reload":
                 state["mtime"] += 10
-                w.write(FILE[a["c"]], file_src(a["c"], a["defs"], a["g"]), state["mtime"])
+                if a["fresh"]:          # the module is not loaded: this load's "import mx" reads the file written now
+                    w.write(MODFILE, file_src("c4", a["mdefs"], a["g"]), state["mtime"])
+                w.write(FILE[a["c"]], file_src(a["c"], a["defs"], a["g"] + len(a["mdefs"]), a["fail"], a["im"]), state["mtime"])
                 await w.reload()
+            elif k == "import":
+                if a["fresh"]:
+                    state["mtime"] += 10
+                    w.write(MODFILE, file_src("c4", a["mdefs"], a["g"], a["fail"]), state["mtime"])
+                if a["via"] == "run":
+                    hass.bus.async_fire("vfimp_" + a["c"], {})
+                elif a["fail"]:         # the importer sees the module's exception: part of the scenario
+                    await ex(a["c"], "try:\n    import mx\nexcept RuntimeError:\n    pass\n")
+                else:
+                    await ex(a["c"], "import mx\n")
             elif k == "close":
                 if a["c"] == "c3":
                     GlobalContextMgr.delete(CTXNAME["c3"])
                     await Function.waiter_sync()
                 else:
-                    os.unlink(os.path.join(w.pdir, FILE[a["c"]]))
+                    os.unlink(os.path.join(w.pdir, MODFILE if a["c"] == "c4" else FILE[a["c"]]))
                     await w.reload()
             elif k == "unload":
                 entry = hass.config_entries.async_entries(DOMAIN)[0]
@@ -398,7 +473,7 @@ def run_case(case):
             State.get_service_params = classmethod(slow_get_service_params)
             state["restore"] = lambda: setattr(State, "get_service_params", orig_gsp)
         for st in case["steps"]:
-            a = st["act"]
+            a = st["act"] = norm_act(st["act"])
             if a.get("rush"):
                 try:
                     await do(a)
@@ -435,14 +510,14 @@ def run_case(case):
     except Exception:
         pass
     files = {FILE[c]: prelude(c) for c in ctxs if c in FILE}
-    first = case["steps"][0]["act"] if case["steps"] else {}
+    first = norm_act(case["steps"][0]["act"]) if case["steps"] else {}
     if not case["started"]:
         if first.get("a") != "boot":
             raise ValueError("a case that is not started must begin with boot")
         if "c1" in ctxs:
-            files[FILE["c1"]] = file_src("c1", first["d1"], 1)
+            files[FILE["c1"]] = file_src("c1", first["d1"], 1, first["f1"])
         if "c2" in ctxs:
-            files[FILE["c2"]] = file_src("c2", first["d2"], 1 + len(first["d1"]))
+            files[FILE["c2"]] = file_src("c2", first["d2"], 1 + len(first["d1"]), first["f2"])
     world.run(files, body, legacy=legacy, pre=pre, realfs=True, apps_cfg={"ab": {}} if "c2" in ctxs else None,
               start_event=case["started"])
     res = dict(case)
@@ -473,7 +548,7 @@ def unset(v):
 
 
 def sim_cfg(path, consts, extra=""):
-    c = {"MaxGen": 8, "MaxSteps": 12, "Ctx": '{"c1", "c2", "c3"}', "Name": '{"f", "g", "h"}', "FlagSets": "{{}}",
+    c = {"MaxGen": 8, "MaxSteps": 12, "Ctx": '{"c1", "c2", "c3", "c4"}', "Name": '{"f", "g", "h"}', "FlagSets": "{{}}",
          "SubSet": '{"dm"}', "StartedSet": "{TRUE, FALSE}", "Eager": "TRUE", "DeclSet": "AllDecls",
          "MaxDefs": 2, "Vias": '{"exec", "run"}', "Rush": "FALSE",
          "Acts": "{%s}" % ", ".join('"%s"' % a for a in ALL_ACTS)}
@@ -502,7 +577,7 @@ def behaviours(ctx, label, consts, num, depth, seed):
 
 
 def ctxs_of(consts):
-    return sorted(json.loads(consts.get("Ctx", '{"c1", "c2", "c3"}').replace("{", "[").replace("}", "]")))
+    return sorted(set(json.loads(consts.get("Ctx", '{"c1", "c2", "c3"}').replace("{", "[").replace("}", "]"))) - {"c4"})
 
 
 def to_cases(behs, ctxs, prefix, subs=("dm", "legacy")):
@@ -532,6 +607,11 @@ DECL_POOL = [
     {"st": ["b"], "ev": [], "tt": ["timer"], "svc": ["s1"], "resp": "none", "sf": "stack"},
     {"st": ["c"], "ev": ["e1", "e2"], "tt": ["shutdown", "timer"], "svc": [], "resp": "none", "sf": "stack"},
     {"st": ["b", "b.old", "c"], "ev": [], "tt": ["startup"], "svc": [], "resp": "none", "sf": "stack"},
+    {"st": [], "ev": [], "tt": [], "svc": ["S3"], "resp": "none", "sf": "stack"},
+    {"st": ["a"], "ev": ["e2"], "tt": [], "svc": ["S3"], "resp": "optional", "sf": "stack"},
+    {"st": [], "ev": ["e1"], "tt": ["startup"], "svc": ["S3", "s2"], "resp": "none", "sf": "args"},
+    {"st": [], "ev": [], "tt": [], "svc": ["s1"], "resp": "none", "sf": "stack", "alt": True},
+    {"st": ["b"], "ev": [], "tt": [], "svc": ["S3", "s2"], "resp": "optional", "sf": "stack", "alt": True},
 ]
 def kw(k, t, v):
     return {"k": k, "t": t, "v": v}
@@ -558,31 +638,45 @@ OUT_GIVE = [
 def gen_random(r, nsteps, ctxs, mask):
     """mask: set of deviation flags whose locus must be avoided (the masked space must be clean).
     Returns {"started", "acts"}."""
+    mask = set(mask) - LIFTED_MASKS
     names = ["f", "g", "h"]
     gens = []                       # declaration and context per generation
-    bind = {c: {n: 0 for n in names} for c in ctxs}
-    cont = {c: {"L": [], "D": 0} for c in ctxs}
+    allc = list(ctxs) + ["c4"]      # c4 (the module) exists once it has been imported
+    bind = {c: {n: 0 for n in names} for c in allc}
+    cont = {c: {"L": [], "D": 0} for c in allc}
     loaded = set(ctxs)
+    imp = set()                     # files / apps that hold an import of the module
     acts = []
     files = [c for c in ctxs if c in FILE]
 
+    def refs(g):
+        return (sum(1 for c in allc for v in bind[c].values() if v == g) + sum(cont[c]["L"].count(g) for c in allc)
+                + sum(1 for c in allc if cont[c]["D"] == g))
+
     def referenced():
         s = set()
-        for c in ctxs:
+        for c in allc:
             s |= {g for g in bind[c].values() if g}
             s |= set(cont[c]["L"])
             if cont[c]["D"]:
                 s.add(cont[c]["D"])
         return s
 
-    def declared(s, other_than=None):
-        ref = referenced()
+    def declared(s, other_than=None, ignore=0):
+        ref = referenced() - {ignore}
         return [g for i, g in enumerate(gens) if (i + 1) in ref and s in g["d"]["svc"] and g["c"] != other_than]
 
-    def pick_decl(c, via="exec", pending=()):
-        """pending: definitions of the same file content chosen so far."""
+    def pick_decl(c, via="exec", pending=(), fail=False, replacing=0):
+        """pending: definitions of the same file content chosen so far; replacing: the generation whose only
+        reference the new definition overwrites (a redefinition: it is gone when the step completes)."""
         for _ in range(40):
             d = r.choice(DECL_POOL)
+            if fail and "shutdown" in d["tt"]:
+                continue
+            if "service-bookkeeping-keyed-by-spelling" in mask and any(
+                    bool(g["d"].get("alt")) != bool(d.get("alt"))
+                    for s in d["svc"] for g in declared(s, ignore=0) + [dict(df) for df in pending if s in df["d"]["svc"]]):
+                continue                      # no two live declarations that spell one name differently
             if "dm-service-multi-arg-rejected" in mask and d["sf"] == "args" and len(d["svc"]) > 1:
                 continue
             if via == "run" and (d["tt"] or len(d["svc"]) > 1):
@@ -597,48 +691,60 @@ def gen_random(r, nsteps, ctxs, mask):
                 continue
             if "service-handler-not-repointed" in mask and d["svc"]:
                 # at most one live declaration per service
-                if any(declared(s) for s in d["svc"]) or any(set(df["d"]["svc"]) & set(d["svc"]) for df in pending):
+                if any(declared(s, ignore=replacing) for s in d["svc"]) or any(set(df["d"]["svc"]) & set(d["svc"]) for df in pending):
                     continue
             if "dm-start-order-arbitrary" in mask and any(set(df["d"]["svc"]) & set(d["svc"]) for df in pending):
                 continue
             return d
         return None
 
-    def content(c, others=()):
+    def content(c, others=(), fail=False, distinct=False):
         defs = []
         for _ in range(r.choice([0, 1, 1, 2, 2])):
-            d = pick_decl(c, pending=list(others) + [dict(df, c=c) for df in defs])
+            d = pick_decl(c, pending=list(others) + [dict(df, c=c) for df in defs], fail=fail)
             if d is None:
                 continue
             n = r.choice(names)
             dup = [df for df in defs if df["n"] == n]
-            if dup and ("dm-delayed-start-ignores-drop" in mask or any("shutdown" in df["d"]["tt"] for df in dup)):
+            if dup and (distinct or "dm-delayed-start-ignores-drop" in mask or any("shutdown" in df["d"]["tt"] for df in dup)):
                 continue
             defs.append({"n": n, "d": d})
         return defs
 
-    def install(c, defs):
+    def install(c, defs, fail=False):
+        """fail: the content raises after its definitions - the context is not loaded, nothing is bound."""
         bind[c] = {n: 0 for n in names}
         cont[c] = {"L": [], "D": 0}
         for df in defs:
             gens.append({"c": c, "d": df["d"]})
-            bind[c][df["n"]] = len(gens)
+            if not fail:
+                bind[c][df["n"]] = len(gens)
+        if fail:
+            loaded.discard(c)
+        else:
+            loaded.add(c)
+
+    def coin(p):
+        return r.random() < p
 
     started = r.random() < 0.7 or not files
     if not started:
-        d1 = content("c1") if "c1" in ctxs else []
-        d2 = content("c2", others=[dict(df, c="c1") for df in d1]) if "c2" in ctxs else []
+        f1 = "c1" in ctxs and coin(0.2)
+        f2 = "c2" in ctxs and coin(0.2)
+        d1 = content("c1", fail=f1) if "c1" in ctxs else []
+        d2 = content("c2", others=[dict(df, c="c1") for df in d1], fail=f2) if "c2" in ctxs else []
         # no cross-context overlap while HA is starting
         s1 = {s for df in d1 for s in df["d"]["svc"]}
         d2 = [df for df in d2 if not (set(df["d"]["svc"]) & s1)]
         # drop definitions that became duplicates with shutdown by filtering (kept simple: re-check)
-        acts.append({"a": "boot", "d1": d1, "d2": d2, "g": 1})
+        acts.append({"a": "boot", "d1": d1, "d2": d2, "f1": f1, "f2": f2, "g": 1})
         if "c1" in ctxs:
-            install("c1", d1)
+            install("c1", d1, f1)
         if "c2" in ctxs:
-            install("c2", d2)
-    kinds = ["define", "del", "rebind", "push", "pop", "clear", "reload", "close", "unload", "fire", "set", "call", "out"]
-    weights = [18, 8, 5, 12, 4, 4, 6, 2, 1, 9, 9, 13, 3]
+            install("c2", d2, f2)
+    kinds = ["define", "del", "rebind", "push", "pop", "clear", "reload", "close", "unload", "fire", "set", "call", "out",
+             "import"]
+    weights = [18, 8, 5, 12, 4, 4, 7, 2, 1, 9, 9, 13, 3, 6]
     tries = 0
     while len(acts) < nsteps and tries < nsteps * 30:
         tries += 1
@@ -662,27 +768,56 @@ def gen_random(r, nsteps, ctxs, mask):
             if not files:
                 continue
             c = r.choice(files)
-            old = (bind[c], cont[c])
+            fail, im = coin(0.2), coin(0.25)
+            fresh = im and "c4" not in loaded
+            # the module's content is chosen on the state BEFORE the reload (as the model's guard is)
+            mdefs = content("c4") if fresh else []
             bind[c] = {n: 0 for n in names}       # the old context's declarations are gone when the new ones register
             cont[c] = {"L": [], "D": 0}
-            defs = content(c)
-            acts.append({"a": "reload", "c": c, "defs": defs, "g": len(gens) + 1})
-            install(c, defs)
-            loaded.add(c)
+            defs = content(c, others=[dict(df, c="c4") for df in mdefs], fail=fail)
+            acts.append({"a": "reload", "c": c, "defs": defs, "fail": fail, "im": im, "mdefs": mdefs, "fresh": fresh,
+                         "g": len(gens) + 1})
+            if fresh:
+                install("c4", mdefs)
+            install(c, defs, fail)
+            imp.discard(c)
+            if im and not fail:
+                imp.add(c)
+        elif k == "import":
+            cands = sorted(loaded - {"c4"})
+            if not cands:
+                continue
+            c = r.choice(cands)
+            via = "run" if coin(0.5) else "exec"
+            fresh = "c4" not in loaded
+            if fresh and c == "c3" and via == "exec" and "session-import-module-not-started" in mask:
+                continue
+            # (a module that fails while a session cell imports it: not specified, not generated)
+            fail = fresh and coin(0.2) and not (c == "c3" and via == "exec")
+            mdefs = content("c4", fail=fail, distinct=True) if fresh else []
+            acts.append({"a": "import", "c": c, "mdefs": mdefs, "via": via, "fail": fail, "fresh": fresh, "g": len(gens) + 1})
+            if fresh:
+                install("c4", mdefs, fail)
+            if not fail:
+                imp.add(c)
         else:
             if not loaded:
                 continue
             c = r.choice(sorted(loaded))
             if k == "close":
-                if len(loaded) <= 1 or len(acts) < nsteps * 0.4:
+                if len(loaded) <= 1 or (len(acts) < nsteps * 0.4 and c != "c4"):
+                    continue
+                if c == "c4" and imp & {"c1", "c2"}:      # its importers would be reloaded with it
                     continue
                 bind[c] = {n: 0 for n in names}
                 cont[c] = {"L": [], "D": 0}
                 loaded.discard(c)
+                imp.discard(c)
                 acts.append({"a": "close", "c": c})
             elif k == "define":
                 n = r.choice(names)
-                d = pick_decl(c)
+                old = bind[c][n]
+                d = pick_decl(c, replacing=old if old and refs(old) == 1 else 0)
                 if d is None:
                     continue
                 gens.append({"c": c, "d": d})
@@ -743,7 +878,7 @@ def gen_random_case(seed, nsteps, ctxs, mask):
 # validation by TLC
 def slim(case):
     return {"id": case["id"], "sub": case["sub"], "started": case["started"], "ctxs": case["ctxs"],
-            "steps": [{"act": s["act"], "obs": s["obs"], "rush": bool(s["act"].get("rush"))} for s in case["steps"]]}
+            "steps": [{"act": norm_act(s["act"]), "obs": s["obs"], "rush": bool(s["act"].get("rush"))} for s in case["steps"]]}
 
 
 def run_trace(ctx, cases, flagsets, label, workers=4):
@@ -809,6 +944,7 @@ def validate(ctx, cases, label, report=True, beside=None):
                 box["exc"] = e
         side = (threading.Thread(target=runner), box)
         side[0].start()
+    live = {f["signature"].get("clause") for f in getattr(ctx, "findings", []) if f.get("status") == "known"}
     if todo:
         # classify: smallest set of named deviations under which the whole recording is accepted
         # (the dm-only deviations have no effect on legacy recordings: one run for all)
@@ -820,8 +956,13 @@ def validate(ctx, cases, label, report=True, beside=None):
             v = run_trace(ctx, [c for c, _ in items], fsets, label + "_classify%d" % sizes[0])
             rest = []
             for c, rj in items:
-                ok = [fsets[i] for i in range(len(fsets)) if v.get((c["id"], i + 1), ("x",))[0] == "accept"]
-                ok.sort(key=len)
+                ok = [(fsets[i], v[(c["id"], i + 1)][1]) for i in range(len(fsets))
+                      if v.get((c["id"], i + 1), ("x",))[0] == "accept"]
+                # smallest set; among equally small ones prefer deviations that are still present in the code under
+                # test (known_findings.jsonl, status known) to repaired ones whose model happens to fit as well, then
+                # the explanation that validates most of the recording (no cut, else the latest cut)
+                ok.sort(key=lambda x: (len(x[0]), sum(1 for f in x[0] if f not in live), x[1] != 0, -x[1]))
+                ok = [x[0] for x in ok]
                 if ok:
                     rejections.append({"case": c, "flags": ok[0], "rej": rj})
                 else:
@@ -843,6 +984,9 @@ def report_rejection(ctx, rj):
     c = rj["case"]
     flags = rj["flags"] or ["unexplained"]
     step = rj["rej"]["step"]
+    if os.environ.get("VERIF_DUMP_REJ"):       # development aid: every rejection (also the known ones) with its recording
+        with open(os.environ["VERIF_DUMP_REJ"], "a") as f:
+            f.write(json.dumps({"id": c["id"], "flags": rj["flags"], "rej": rj["rej"], "acts": [s["act"] for s in c["steps"]]}) + "\n")
     for fl in flags:
         sig = {"clause": fl, "subsystem": c["sub"]}
         if c.get("masked"):                  # the masked space must be clean: never matches a known entry
@@ -868,9 +1012,10 @@ def execute(ctx, cases, nproc=14):
 def selftest(ctx, accepted_cases, want=24):
     """Corrupt accepted recordings (drop a run, flip a count, change a result): TLC must reject each."""
     bad = []
+    kinds = set()
     r = random.Random(ctx.seed)
     for c in accepted_cases:
-        if len(bad) >= want:
+        if len(bad) >= want and kinds >= {"import", "fail", "case"}:
             break
         if any(s["act"].get("rush") for s in c["steps"]):
             continue
@@ -906,8 +1051,43 @@ def selftest(ctx, accepted_cases, want=24):
             s = [k for k, v in c2["steps"][idx[0]]["obs"]["has"].items() if v][0]
             c2["steps"][idx[0]]["obs"]["has"][s] = False
             bad.append(c2)
+        # the module: an import that leaves the module's functions stopped / the module unloaded
+        idx = [i for i, s in enumerate(steps) if s["act"]["a"] in ("import", "reload") and s["act"].get("fresh")
+               and s["obs"]["act"]["c4"] > 0]
+        if idx:
+            c2 = copy.deepcopy(slim(c))
+            c2["id"] = "corrupt-import/" + c["id"]
+            c2["steps"][idx[0]]["obs"]["act"]["c4"] = 0
+            bad.append(c2)
+            c2 = copy.deepcopy(slim(c))
+            c2["id"] = "corrupt-modctx/" + c["id"]
+            c2["steps"][idx[0]]["obs"]["ctx"]["c4"] = False
+            bad.append(c2)
+            kinds.add("import")
+        # a failed load that leaves a declared service registered / its context loaded
+        idx = [(i, sv) for i, s in enumerate(steps) for sv in SVC
+               if s["act"]["a"] in ("reload", "import", "boot") and (s["act"].get("fail") or s["act"].get("f1"))
+               and any(sv in df["d"]["svc"] for df in s["act"].get("defs", s["act"].get("mdefs", s["act"].get("d1"))))
+               and not s["obs"]["has"][sv]]
+        if idx:
+            i, sv = idx[0]
+            c2 = copy.deepcopy(slim(c))
+            c2["id"] = "corrupt-failload/" + c["id"]
+            c2["steps"][i]["obs"]["has"][sv] = True
+            c2["steps"][i]["obs"]["cnt"][sv] = 1
+            bad.append(c2)
+            kinds.add("fail")
+        # a service spelled with an upper-case letter that vanishes although declared
+        idx = [i for i, s in enumerate(steps) if s["obs"]["has"]["S3"] and s["act"]["a"] == "define"]
+        if idx:
+            c2 = copy.deepcopy(slim(c))
+            c2["id"] = "corrupt-case/" + c["id"]
+            c2["steps"][idx[-1]]["obs"]["has"]["S3"] = False
+            bad.append(c2)
+            kinds.add("case")
     if len(bad) < 4:
         raise MachineryFailure("selftest: nothing to corrupt")
+    ctx.cov["selftest_corruption_kinds_of_round3"] = sorted(kinds)
     v = run_trace(ctx, bad, [[]], "corrupt")
     missed = [c["id"] for c in bad if v.get((c["id"], 1), ("x",))[0] != "reject"]
     if missed:
@@ -917,8 +1097,8 @@ def selftest(ctx, accepted_cases, want=24):
 
 # ------------------------------------------------------------------------------------------------
 # directed witnesses of the known deviations (re-executed on every run)
-def D(st=(), ev=(), tt=(), svc=(), resp="none", sf="stack"):
-    return {"st": sorted(st), "ev": sorted(ev), "tt": sorted(tt), "svc": sorted(svc), "resp": resp, "sf": sf}
+def D(st=(), ev=(), tt=(), svc=(), resp="none", sf="stack", alt=False):
+    return {"st": sorted(st), "ev": sorted(ev), "tt": sorted(tt), "svc": sorted(svc), "resp": resp, "sf": sf, "alt": alt}
 
 
 RACE_DECLS = [D(st=["a"], ev=["e1"], svc=["s1"]), D(st=["b"], ev=["e1"], svc=["s1"], resp="optional"),
@@ -1007,11 +1187,80 @@ def witnesses(race=True):
         w.append(("race-load-unload", ["dm", "legacy"], [load, {"a": "unload"}]))
     w.append(("out", ["dm", "legacy"],
               [{"a": "out", "c": "c1", "form": f, "give": g} for g in OUT_GIVE for f in ("name", "call")]))
+    both = ["dm", "legacy"]
+    # a module (c4) is loaded by whoever imports it first - inside a running function, by a top-level statement of a
+    # started context, by a Jupyter cell, or at the top of a file being loaded - and then lives on its own
+    mod = [{"n": "f", "d": D(st=["a", "a.old"], ev=["e1"], tt=["startup"])}, {"n": "g", "d": D(svc=["s2"], resp="optional")}]
+    occ = [{"a": "fire", "e": "e1"}, {"a": "set", "x": "a"}, {"a": "call", "s": "s2", "data": "p=1", "rr": True}]
+    for c, via in (("c1", "run"), ("c2", "exec"), ("c3", "run")):
+        w.append(("modimp-%s-%s" % (via, c), both, [
+            {"a": "import", "c": c, "mdefs": mod, "via": via, "fail": False, "fresh": True, "g": 1}] + occ + [
+            {"a": "import", "c": "c1", "mdefs": [], "via": "exec", "fail": False, "fresh": False, "g": 3},
+            {"a": "reload", "c": "c1", "defs": [{"n": "h", "d": ev}], "g": 3}, {"a": "reload", "c": "c2", "defs": [], "g": 4},
+            {"a": "fire", "e": "e1"}, {"a": "del", "c": "c4", "n": "f"}, {"a": "fire", "e": "e1"},
+            {"a": "close", "c": "c4"}, {"a": "call", "s": "s2", "data": "-", "rr": True}, {"a": "unload"}]))
+    w.append(("sessimp", both, [
+        {"a": "import", "c": "c3", "mdefs": mod, "via": "exec", "fail": False, "fresh": True, "g": 1}] + occ))
+    w.append(("loadimp", both, [
+        {"a": "reload", "c": "c1", "defs": [{"n": "h", "d": s1}], "im": True, "mdefs": mod, "fresh": True, "g": 1}] + occ + [
+        {"a": "reload", "c": "c1", "defs": [{"n": "h", "d": s1}], "g": 4}, {"a": "fire", "e": "e1"},
+        {"a": "close", "c": "c1"}, {"a": "set", "x": "a"}, {"a": "call", "s": "s2", "data": "-", "rr": True},
+        {"a": "define", "c": "c4", "n": "f", "d": ev, "g": 5}, {"a": "fire", "e": "e1"}, {"a": "set", "x": "a"},
+        {"a": "unload"}]))
+    # a file / module whose top level raises after some definitions: not loaded, nothing of it is active, the
+    # names it declared are free for others
+    broken = [{"n": "f", "d": D(ev=["e1"], svc=["s1"])}, {"n": "g", "d": D(st=["a"], tt=["startup"], svc=["s2"], resp="optional")}]
+    after = [{"a": "call", "s": "s1", "data": "p=1", "rr": False}, {"a": "call", "s": "s2", "data": "-", "rr": True},
+             {"a": "fire", "e": "e1"}, {"a": "set", "x": "a"}]
+    w.append(("failload", both, [
+        {"a": "define", "c": "c1", "n": "h", "d": D(ev=["e1"], svc=["s1"]), "g": 1},
+        {"a": "reload", "c": "c1", "defs": broken, "fail": True, "g": 2}] + after + [
+        {"a": "define", "c": "c2", "n": "f", "d": s1, "g": 4}, {"a": "call", "s": "s1", "data": "-", "rr": False},
+        {"a": "reload", "c": "c2", "defs": [], "g": 5},
+        {"a": "reload", "c": "c1", "defs": broken, "g": 5}] + after + [{"a": "unload"}]))
+    w.append(("failapp", both, [
+        {"a": "reload", "c": "c2", "defs": broken[:1], "g": 1}, {"a": "reload", "c": "c2", "defs": broken[1:], "fail": True, "g": 2}]
+        + after + [{"a": "unload"}]))
+    w.append(("failboot", both, [
+        {"a": "boot", "d1": broken, "d2": [{"n": "h", "d": D(svc=["S3"], ev=["e1"])}], "f1": True, "f2": False, "g": 1}] + after + [
+        {"a": "call", "s": "S3", "data": "-", "rr": False},
+        {"a": "reload", "c": "c1", "defs": broken[:1], "g": 4}] + after + [{"a": "unload"}], False))
+    w.append(("failimport", both, [
+        {"a": "import", "c": "c1", "mdefs": broken, "via": "run", "fail": True, "fresh": True, "g": 1}] + after + [
+        {"a": "import", "c": "c2", "mdefs": broken[:1], "via": "exec", "fail": True, "fresh": True, "g": 3}] + after[:1] + [
+        {"a": "import", "c": "c1", "mdefs": broken, "via": "exec", "fail": False, "fresh": True, "g": 4}] + after + [{"a": "unload"}]))
+    # a service name with an upper-case letter: redefinition (register before remove), aliases, a move to another context
+    up, up2 = D(svc=["S3"]), D(svc=["S3", "s1"], ev=["e1"], resp="optional")
+    callS = {"a": "call", "s": "S3", "data": "p=1", "rr": False}
+    w.append(("case-redef", both, [
+        {"a": "define", "c": "c1", "n": "f", "d": up, "g": 1}, callS, {"a": "define", "c": "c1", "n": "f", "d": up, "g": 2}, callS,
+        {"a": "define", "c": "c1", "n": "f", "d": up2, "g": 3}, {"a": "call", "s": "S3", "data": "-", "rr": True},
+        {"a": "del", "c": "c1", "n": "f"}, callS, {"a": "define", "c": "c3", "n": "g", "d": up, "g": 4}, callS, {"a": "unload"}]))
+    w.append(("case-move", both, [
+        {"a": "reload", "c": "c1", "defs": [{"n": "f", "d": up}], "g": 1}, callS,
+        {"a": "define", "c": "c2", "n": "g", "d": up, "g": 2}, callS,
+        {"a": "reload", "c": "c1", "defs": [], "g": 3}, callS, {"a": "define", "c": "c2", "n": "g", "d": up, "g": 3}, callS,
+        {"a": "close", "c": "c2"}, {"a": "push", "c": "c1", "d": up2, "where": "L", "via": "exec", "g": 4},
+        {"a": "call", "s": "S3", "data": "-", "rr": True}, {"a": "unload"}]))
+    # one name spelled in two ways by two live declarations (HA folds service names): deletion, redefinition, take-over
+    low, cap = D(svc=["s1"]), D(svc=["s1"], alt=True)
+    call1 = {"a": "call", "s": "s1", "data": "p=1", "rr": False}
+    w.append(("spell-del", both, [{"a": "define", "c": "c1", "n": "f", "d": low, "g": 1}, {"a": "define", "c": "c1", "n": "g", "d": cap, "g": 2},
+                                  call1, {"a": "del", "c": "c1", "n": "g"}, call1]))
+    w.append(("spell-redef", both, [{"a": "define", "c": "c1", "n": "f", "d": low, "g": 1}, {"a": "define", "c": "c1", "n": "f", "d": cap, "g": 2},
+                                    call1]))
+    w.append(("spell-takeover", both, [{"a": "define", "c": "c1", "n": "f", "d": low, "g": 1},
+                                       {"a": "define", "c": "c2", "n": "g", "d": cap, "g": 2}, call1]))
+    # (a name that is only ever spelled the other way is nothing special)
+    w.append(("spell-alone", both, [{"a": "define", "c": "c1", "n": "f", "d": cap, "g": 1}, call1,
+                                    {"a": "define", "c": "c1", "n": "f", "d": cap, "g": 2}, call1,
+                                    {"a": "define", "c": "c2", "n": "g", "d": cap, "g": 3}, {"a": "del", "c": "c1", "n": "f"}, call1,
+                                    {"a": "unload"}]))
     cases = []
-    for name, subs, acts in w:
+    for name, subs, acts, *opt in w:
         for sub in subs:
-            cases.append({"id": "w/%s/%s" % (name, sub), "sub": sub, "started": True, "ctxs": ["c1", "c2", "c3"],
-                          "steps": [{"act": a} for a in acts], "witness": True})
+            cases.append({"id": "w/%s/%s" % (name, sub), "sub": sub, "started": opt[0] if opt else True,
+                          "ctxs": ["c1", "c2", "c3"], "steps": [{"act": a} for a in acts], "witness": True})
     # consecutive positions go to consecutive workers (hash seeds 0..3 in turn): keep the four copies of the
     # hash-seed dependent witness adjacent per subsystem so that each subsystem meets every seed
     nd = [c for c in cases if "/notifydel" in c["id"]]
@@ -1103,6 +1352,14 @@ def nontrivial(c):
     return ran and len(tabs) > 1
 
 
+SELFTEST_FIRST = ["w/out/dm", "w/modimp-run-c1/dm", "w/loadimp/legacy", "w/failload/legacy", "w/failimport/dm", "w/case-redef/dm",
+                  "w/case-move/legacy", "w/failboot/dm"]
+
+
+def selftest_rank(c):
+    return SELFTEST_FIRST.index(c["id"]) if c["id"] in SELFTEST_FIRST else len(SELFTEST_FIRST)
+
+
 def main_common(ctx, prop, mc_jobs, sim_consts, pool, sizes):
     """mc_jobs: list of (label, consts, invariants, properties, expect); sim_consts: constants of the simulated
     behaviours (R); pool: declaration pool of the random generator (T); sizes: dict of volumes."""
@@ -1134,7 +1391,9 @@ def main_common(ctx, prop, mc_jobs, sim_consts, pool, sizes):
             states = tlc.parse_trace_file(f)
             if constraint:        # the simulator may emit the state that violates the constraint: cut there
                 for i, st in enumerate(states):
-                    if any(v > 1 for v in st["cnt"].values()):
+                    la = unset(st["lastAct"])
+                    if any(v > 1 for v in st["cnt"].values()) or (
+                            la["a"] == "import" and la["c"] == "c3" and la["via"] == "exec" and la["fresh"]):
                         states = states[:i]
                         break
             a = [unset(s["lastAct"]) for s in states[1:]]
@@ -1151,7 +1410,7 @@ def main_common(ctx, prop, mc_jobs, sim_consts, pool, sizes):
     per = (sizes["sim"] + nsplit - 1) // nsplit if nsplit else 0
     for k in range(nsplit):
         thunks.append(lambda k=k: sim("u%d" % k, sim_u, per, ctx.seed * 100 + 11 + k))
-        thunks.append(lambda k=k: sim("m%d" % k, masked_consts, per, ctx.seed * 100 + 51 + k, constraint="MaskOneDeclaration"))
+        thunks.append(lambda k=k: sim("m%d" % k, masked_consts, per, ctx.seed * 100 + 51 + k, constraint="Masked"))
     outs = parallel(thunks, max_workers=min(8, int(os.environ.get("VERIF_DEV_NPROC", "64")))) if thunks else []
     mc_report(ctx, outs[:len(mc_jobs)])
     sims = outs[len(mc_jobs):]
@@ -1178,9 +1437,12 @@ def main_common(ctx, prop, mc_jobs, sim_consts, pool, sizes):
     byid = {c["id"]: c for c in done}
     accepted, rejections = validate(
         ctx, done, "main",
-        beside=lambda acc: selftest(ctx, sorted([byid[i] for i in acc if len(byid[i]["steps"]) >= 4],
-                                                key=lambda c: not c["id"].startswith("w/out"))[:12]))
+        beside=lambda acc: selftest(ctx, sorted([byid[i] for i in acc if len(byid[i]["steps"]) >= 4], key=selftest_rank)[:14]))
     acc_cases = [byid[i] for i in accepted]
+    # (under a code mutant the directed recordings may all be rejected: those are reported, not a machinery failure)
+    if not [r for r in rejections if not r["flags"]] and ctx.cov.get("selftest_corruption_kinds_of_round3") != ["case", "fail", "import"]:
+        raise MachineryFailure("selftest: no accepted recording with a module import / failed load / upper-case service name "
+                               "was corrupted (have %s)" % ctx.cov.get("selftest_corruption_kinds_of_round3"))
     ctx.cov["phase_wall_s"] = {"model_checking_and_simulation": round(t_gen - ctx.t0, 1), "execution_on_real_code": round(t_exec - t_gen, 1),
                                "trace_validation": round(time.time() - t_exec, 1)}
     # coverage
